@@ -66,6 +66,16 @@ class C06(Spec):
                     for x in m1: c += x
                     c += ["C 1 snapshot false", "SNAP"] + m2 + ["C 1 snapshot false", "SNAP", "RESTART"] + AFTER + m3 + ["C 1 snapshot false", "SNAP", "RESTART"] + AFTER + ["C 1 keys"]
                     cases.append(c)
+        # key NAMES that are not ASCII (two- and three-byte characters, next to ASCII neighbours): every length and offset of the keys file is
+        # in BYTES; the same life cycles, so that the in-place update of a persisted multi-byte key and the records behind it are exercised
+        umuts = [["C 1 set k\\xc3\\xa9 1"], ["C 1 set \\xe2\\x82\\xac\\xc3\\xa7 22"], ["C 1 set k\\xc3\\xa9 3"], ["C 1 remove k\\xc3\\xa9"], ["C 1 set z x"], ["C 1 set \\xe2\\x82\\xac\\xc3\\xa7 two words"], ["C 1 increment \\xc3\\xb1"]]
+        for m1 in itertools.product(umuts[:3] + umuts[4:5], repeat=2):
+            for m2 in umuts:
+                for m3 in (umuts if tier != "quick" else umuts[2:6]):
+                    c = list(SETUP)
+                    for x in m1: c += x
+                    c += ["C 1 snapshot false", "SNAP"] + m2 + ["C 1 snapshot false", "SNAP", "RESTART"] + AFTER + m3 + ["C 1 snapshot false", "SNAP", "RESTART"] + AFTER + ["C 1 keys", "C 1 get-safe k\\xc3\\xa9", "C 1 get-safe \\xe2\\x82\\xac\\xc3\\xa7"]
+                    cases.append(c)
         # one key through its whole state machine: every sequence of {set, increment, remove, incremental snapshot} of length 6 (quick)
         # / 7 (thorough), then a snapshot and a restart — New / Updated / Deleted / re-created entries meeting records that already
         # exist for the key (a second record for a key, a tombstone on the wrong record, a version that restarts)
@@ -79,13 +89,15 @@ class C06(Spec):
         # an ARBITER database: a version conflict parks the key at the in-conflict version and records the conflict under a key of
         # its own — entries written by the conflict code, not by set_value, go through the snapshot writer too
         ARB = ["RESET", "SESS 1", "C 1 auth adm pw", "C 1 create-db t tok arbiter", "C 1 use-db t tok", "SESS 3", "C 3 use-db t tok", "C 3 arbiter",
-               "C 1 set a 1", "C 1 set bb 22", "C 1 set ccc 333", "C 1 snapshot false", "SNAP"]
-        conflicts = [["C 1 set-safe nw 0 x", "C 1 set-safe nw 0 y"], ["C 1 set-safe a 0 stale"], ["C 1 set nw 1", "C 1 set-safe nw 0 z", "C 1 set nw again"],
+               "C 1 set a 1", "C 1 set bb 22", "C 1 set bb 23", "C 1 set ccc 333", "C 1 snapshot false", "SNAP"]
+        # (bb is persisted at version 1 and CLEAN when the stale write arrives: the conflict code changes its version without set_value)
+        conflicts = [["C 1 set-safe bb 0 stale"], ["C 1 set-safe bb 0 stale", "RESOLVE 3 0 win"], ["C 1 set-safe bb 0 s1", "C 1 set-safe bb 0 s2"],
+                     ["C 1 set-safe nw 0 x", "C 1 set-safe nw 0 y"], ["C 1 set-safe a 0 stale"], ["C 1 set nw 1", "C 1 set-safe nw 0 z", "C 1 set nw again"],
                      ["C 1 set-safe a 0 s1", "C 1 set-safe a 0 s2"], ["C 1 set-safe nw 0 x", "C 1 set-safe nw 0 y", "RESOLVE 3 0 win"]]
         for cf in conflicts:
             for mid in ([], ["C 1 snapshot false", "SNAP"], ["C 1 set bb 23"]):
                 for fin in (["C 1 snapshot false", "SNAP"], ["C 1 snapshot true", "SNAP"]):
-                    cases.append(ARB + cf + mid + fin + ["RESTART"] + AFTER + ["C 1 get-safe a", "C 1 get-safe nw", "C 1 keys"])
+                    cases.append(ARB + cf + mid + fin + ["RESTART"] + AFTER + ["C 1 get-safe a", "C 1 get-safe bb", "C 1 get-safe nw", "C 1 keys"])
         # several databases queued for ONE write round (one request naming both, or two requests before the round runs; same and different
         # reclaim flags; a database named twice): every queued database must be written
         TWO = ["RESET", "SESS 1", "C 1 auth adm pw", "C 1 create-db t tok newer", "C 1 create-db u tok2 newer", "C 1 create-db w tok3", "C 1 use-db t tok", "C 1 set a 1", "C 1 set bb 22",
